@@ -34,6 +34,14 @@ struct Plan {
     kind: String,
     #[serde(default)]
     header_mode: bool,
+    /// conn kind: which side offers DIST_HDR_ATOM_CACHE (header_mode = both)
+    #[serde(default)]
+    local_hdr: bool,
+    #[serde(default)]
+    peer_hdr: bool,
+    /// conn kind: "" | nok | bad_ack | silence : the handshake fails and then operations are attempted
+    #[serde(default)]
+    handshake_fail: String,
     #[serde(default)]
     client: EndCfg,
     #[serde(default)]
@@ -65,7 +73,7 @@ impl Scenario for C07 {
 
     fn runs(&self, tier: Tier) -> u64 {
         match tier {
-            Tier::Quick => 10_000,
+            Tier::Quick => 150_000,
             Tier::Thorough => 8_000_000,
         }
     }
@@ -83,9 +91,14 @@ impl Scenario for C07 {
         };
         let n_tasks = if node_kind { r.range(1, 6) as usize } else { 1 };
         let tasks: Vec<Vec<Op>> = (0..n_tasks).map(|_| (0..r.range(1, 8)).map(|_| gen_op(r, node_kind)).collect()).collect();
+        let (local_hdr, peer_hdr) = if node_kind { (false, false) } else { (r.chance(1, 2), r.chance(1, 2)) };
+        let handshake_fail = if !node_kind && r.chance(1, 8) { (*r.pick(&["nok", "bad_ack", "silence"])).to_string() } else { String::new() };
         let p = Plan {
             kind: if node_kind { "node" } else { "conn" }.to_string(),
-            header_mode: !node_kind && r.chance(1, 2),
+            header_mode: local_hdr && peer_hdr,
+            local_hdr,
+            peer_hdr,
+            handshake_fail,
             client: end(r),
             server: end(r),
             cap: *r.pick(&[0u32, 0, 600, 4096]),
@@ -118,7 +131,7 @@ impl Scenario for C07 {
             components_stubbed: &["TCP (SimNet)", "EPMD (stub)", "remote node (handshake acceptor + independent frame, header and term reader)"],
             assumptions: &["payloads come from the sub-space with an unambiguous denotation (DESIGN 2.4); node-local identifier forms are not generated"],
             fault_prefixes: &["fault.", "net."],
-            expected_probes: &["probe.c07.frame_checked_passthrough", "probe.c07.frame_checked_header", "probe.c07.interleaved_tasks", "probe.c07.op_failed_after_fault", "probe.c07.unlink_id_above_2_63"],
+            expected_probes: &["probe.c07.frame_checked_passthrough", "probe.c07.frame_checked_header", "probe.c07.interleaved_tasks", "probe.c07.op_failed_after_fault", "probe.c07.unlink_id_above_2_63", "probe.c07.asymmetric_flag_offer", "probe.c07.nothing_written_after_failed_handshake"],
         }
     }
 }
@@ -190,7 +203,14 @@ async fn scenario(w: &Arc<World>, p: &Plan) {
     let sink: Arc<Mutex<Vec<u8>>> = Arc::new(Mutex::new(Vec::new()));
     let wants: Arc<Mutex<Vec<Want>>> = Arc::new(Mutex::new(Vec::new()));
     let ctl: Arc<Mutex<Option<crate::net::PipeCtl>>> = Arc::new(Mutex::new(None));
-    let peer_flags = OTP_FLAGS_BASE | if p.header_mode { FLAG_DIST_HDR_ATOM_CACHE } else { 0 };
+    let peer_flags = OTP_FLAGS_BASE | if p.peer_hdr { FLAG_DIST_HDR_ATOM_CACHE } else { 0 };
+    if p.kind == "conn" && p.header_mode != (p.local_hdr && p.peer_hdr) {
+        return;
+    }
+    if p.kind == "conn" && !p.handshake_fail.is_empty() {
+        failed_handshake(w, &p).await;
+        return;
+    }
     {
         let (sink2, p2, ctl2) = (sink.clone(), p.clone(), ctl.clone());
         install_conforming_peer(
@@ -279,7 +299,10 @@ async fn scenario(w: &Arc<World>, p: &Plan) {
             }
         }
     } else {
-        let flags = DistributionFlags::default().as_u64() | if p.header_mode { FLAG_DIST_HDR_ATOM_CACHE } else { 0 };
+        let flags = DistributionFlags::default().as_u64() | if p.local_hdr { FLAG_DIST_HDR_ATOM_CACHE } else { 0 };
+        if p.local_hdr != p.peer_hdr {
+            w.stat("probe.c07.asymmetric_flag_offer");
+        }
         install_epmd_only(w);
         let cfg = ConnectionConfig::new(SUT_NAME, PEER_NAME, COOKIE).with_flags(DistributionFlags::new(flags)).with_timeout(Duration::from_secs(600));
         let mut conn = Connection::new(cfg);
@@ -361,6 +384,82 @@ async fn drain(ctl: &Arc<Mutex<Option<crate::net::PipeCtl>>>) {
             break;
         }
         tokio::time::sleep(Duration::from_millis(10)).await;
+    }
+}
+
+/// The handshake fails part-way (refusal, wrong digest, silence); afterwards every send-side
+/// operation must fail and put nothing on the wire.
+async fn failed_handshake(w: &Arc<World>, p: &Arc<Plan>) {
+    use crate::peer::{install_peer, read_frame2};
+    use tokio::io::AsyncWriteExt;
+    install_epmd_only(w);
+    let ctl: Arc<Mutex<Option<crate::net::PipeCtl>>> = Arc::new(Mutex::new(None));
+    let (ctl2, kind) = (ctl.clone(), p.handshake_fail.clone());
+    install_peer(
+        w,
+        crate::nodeenv::PEER_ADDR,
+        NetCfg { client: p.client.clone(), server: p.server.clone(), cap: p.cap as usize },
+        |_| 0,
+        move |_w: &Arc<World>, mut conn: ServerConn| {
+            *ctl2.lock().unwrap() = Some(conn.c2s.clone());
+            let kind = kind.clone();
+            tokio::spawn(async move {
+                let Ok(_name) = read_frame2(&mut conn.read).await else { return };
+                match kind.as_str() {
+                    "nok" => {
+                        let _ = conn.write.write_all(&wire::frame2(&wire::hs_status("nok"))).await;
+                    }
+                    "bad_ack" => {
+                        let _ = conn.write.write_all(&wire::frame2(&wire::hs_status("ok"))).await;
+                        let _ = conn.write.write_all(&wire::frame2(&wire::hs_challenge(OTP_FLAGS_BASE, 77, 1, PEER_NAME))).await;
+                        let _ = read_frame2(&mut conn.read).await;
+                        let _ = read_frame2(&mut conn.read).await;
+                        let _ = conn.write.write_all(&wire::frame2(&wire::hs_ack(&[9u8; 16]))).await;
+                    }
+                    _ => {}
+                }
+                // keep the socket open and keep reading: whatever the client writes now is counted
+                let mut sink = [0u8; 256];
+                while let Ok(n) = conn.read.read(&mut sink).await {
+                    if n == 0 {
+                        break;
+                    }
+                }
+            });
+        },
+    );
+    let flags = DistributionFlags::default().as_u64() | if p.local_hdr { FLAG_DIST_HDR_ATOM_CACHE } else { 0 };
+    let cfg = ConnectionConfig::new(SUT_NAME, PEER_NAME, COOKIE).with_flags(DistributionFlags::new(flags)).with_timeout(Duration::from_secs(5));
+    let mut conn = Connection::new(cfg);
+    if conn.connect().await.is_ok() {
+        w.violation("HARNESS-setup", "the handshake was meant to fail".to_string());
+        return;
+    }
+    w.stat(&format!("fault.handshake_{}", p.handshake_fail));
+    let Some(c) = ctl.lock().unwrap().clone() else { return };
+    tokio::time::sleep(Duration::from_millis(2000)).await;
+    let before = c.total_written();
+    let from = to_pid(&local_pid_for(0)).unwrap();
+    let to = to_pid(&peer_pid_for(0, 0, 1)).unwrap();
+    let rf = to_ref(&wire::gen_ref(&mut Rng::new(p.salt), None)).unwrap();
+    let results = [
+        ("send_message", conn.send_message(from.clone(), to.clone(), OwnedTerm::Atom(Atom::new("x"))).await.is_ok()),
+        ("send_to_name", conn.send_to_name(from.clone(), Atom::new("rex"), OwnedTerm::Nil).await.is_ok()),
+        ("link", conn.link(&from, &to).await.is_ok()),
+        ("unlink", conn.unlink(&from, &to, 7).await.is_ok()),
+        ("monitor", conn.monitor(&from, &to, &rf).await.is_ok()),
+        ("demonitor", conn.demonitor(&from, &to, &rf).await.is_ok()),
+    ];
+    for (name, ok) in results {
+        if ok {
+            w.violation("send-before-connected", format!("{}() returned Ok after a handshake that failed ({})", name, p.handshake_fail));
+        }
+    }
+    tokio::time::sleep(Duration::from_millis(2000)).await;
+    if c.total_written() != before {
+        w.violation("send-before-connected", format!("{} bytes were written by send-side operations after a handshake that failed ({})", c.total_written() - before, p.handshake_fail));
+    } else {
+        w.stat("probe.c07.nothing_written_after_failed_handshake");
     }
 }
 
